@@ -106,6 +106,70 @@ def evalSel (opa : F) (nArg : Option Nat) (ns : F) (Rs : List F) (keep : List Bo
   let sel := ((Rs.zip keep).filter (fun p => p.2)).map (fun p => p.1)
   llrOfRatios opa (trialCounts nArg Rs.length sel.length).1 ns sel
 
+/-! #### Compositions of PDF ratios as a datatype ("every PDF-ratio composition")
+
+`leaf`: a ratio object returning prescribed values; `prod`: `PDFRatioProduct` (`pdfratio1 * pdfratio2`,
+arbitrarily nested); `sob`: `SigOverBkgPDFRatio` of a signal and a background density. -/
+
+inductive RExpr (F : Type) where
+  | leaf (r : List F)
+  | prod (a b : RExpr F)
+  | sob (zb : F) (s b : List F)
+
+/-- `get_ratio` of the composed object; `none` where numpy raises on a shape mismatch -/
+def RExpr.eval : RExpr F → Option (List F)
+  | .leaf r => some r
+  | .prod a b =>
+      match a.eval, b.eval with
+      | some x, some y => ratioProductChecked x y
+      | _, _ => none
+  | .sob zb s b => if s.length = b.length then some (List.zipWith (ratioSOB zb) s b) else none
+
+/-- the value the composition denotes for event `i`: the product of what its leaves give for event `i` -/
+def RExpr.denote : RExpr F → Nat → F
+  | .leaf r, i => r.getD i 0
+  | .prod a b, i => a.denote i * b.denote i
+  | .sob zb s b, i => ratioSOB zb (s.getD i 0) (b.getD i 0)
+
+/-! #### Trials on one `TrialDataManager` / LLH-ratio object
+
+What the trial data manager remembers between calls: `_n_events` and the (selected) events; here the
+ratios of the selected events stand for the events.  `initialize_trial` overwrites both — the total
+from the explicit argument or the number of *raw* events — `evaluate` reads both. -/
+
+structure TrialState (F : Type) where
+  nEvents : Nat
+  sel : List F
+
+inductive TrialOp (F : Type) where
+  | newTrial (nArg : Option Nat) (Rs : List F) (keep : List Bool)
+  | eval (ns : F)
+
+def trialStep (opa : F) (st : Option (TrialState F)) : TrialOp F → Option (TrialState F) × Option (Option F)
+  | .newTrial nArg Rs keep =>
+      let sel := ((Rs.zip keep).filter (fun p => p.2)).map (fun p => p.1)
+      (some { nEvents := (trialCounts nArg Rs.length sel.length).1, sel := sel }, none)
+  | .eval ns =>
+      match st with
+      | some t => (st, some (some (llrOfRatios opa t.nEvents ns t.sel)))
+      | none => (st, some none)      -- no trial initialised: the code raises
+
+/-- run a history; one entry per `eval`: `some value`, or `none` where the code raises -/
+def trialRun (opa : F) (st : Option (TrialState F)) : List (TrialOp F) → List (Option F)
+  | [] => []
+  | op :: rest =>
+      match (trialStep opa st op).2 with
+      | some v => v :: trialRun opa (trialStep opa st op).1 rest
+      | none => trialRun opa (trialStep opa st op).1 rest
+
+/-- the specification: every evaluation is the stateless `evalSel` of the most recent trial -/
+def trialSpec (opa : F) (cur : Option (Option Nat × List F × List Bool)) :
+    List (TrialOp F) → List (Option F)
+  | [] => []
+  | .newTrial nArg Rs keep :: rest => trialSpec opa (some (nArg, Rs, keep)) rest
+  | .eval ns :: rest =>
+      (cur.map (fun c => evalSel opa c.1 ns c.2.1 c.2.2)) :: trialSpec opa cur rest
+
 end
 
 end LLH
